@@ -64,6 +64,8 @@ def byte_plan(cmd, oracle):
             native("native-fallback-dispatch", cmd, procs=4, force=2, only="top"),
             miri("miri-x86_64", cmd, "miri-x86_64", procs=8, of=700),
             miri("miri-aarch64-neon", cmd, "miri-aarch64", procs=8, of=700),
+            miri("miri-s390x-be", cmd, "miri-s390x", procs=4, of=300),
+            miri("miri-i686", cmd, "miri-i686", procs=4, of=300),
         ],
         "thorough": [
             native("native", cmd, bitmap=True, timeout=7200),
@@ -71,11 +73,12 @@ def byte_plan(cmd, oracle):
             native("native-fallback-dispatch", cmd, force=2, only="top", timeout=7200),
             native("native-avx2-compiletime", cmd, config="relavx2", only="top", timeout=7200),
             native("native-nostd", cmd, config="relcore", only="top", timeout=7200),
-            miri("miri-x86_64", cmd, "miri-x86_64", procs=16, of=240, timeout=3600),
-            miri("miri-x86_64-avx2", cmd, "miri-x86_64-avx2", procs=16, of=240, timeout=3600),
-            miri("miri-aarch64-neon", cmd, "miri-aarch64", procs=16, of=240, timeout=3600),
-            miri("miri-s390x-be", cmd, "miri-s390x", procs=8, of=480, timeout=3600),
-            miri("miri-i686", cmd, "miri-i686", procs=8, of=480, timeout=3600),
+            # thorough: the whole boundary-focused sample on every target
+            miri("miri-x86_64", cmd, "miri-x86_64", procs=16, of=16, timeout=7200),
+            miri("miri-x86_64-avx2", cmd, "miri-x86_64-avx2", procs=16, of=16, timeout=7200),
+            miri("miri-aarch64-neon", cmd, "miri-aarch64", procs=16, of=16, timeout=7200),
+            miri("miri-s390x-be", cmd, "miri-s390x", procs=16, of=16, timeout=7200),
+            miri("miri-i686", cmd, "miri-i686", procs=16, of=16, timeout=7200),
         ],
     }
 
@@ -268,7 +271,8 @@ PLANS["C09"] = {
     "quick": (
         [native("cfg-" + n, "C09", config=c, bitmap=(i == 0), transcript="auto", **a) for i, (n, c, a) in enumerate(C09_NATIVE)]
         + [native("cfgB-default-native", "C09", config="rel", procs=640, tier="miri", transcript="auto"),
-           miri("cfgB-miri-aarch64-neon", "C09", "miri-aarch64", procs=8, of=640, transcript="auto")]
+           miri("cfgB-miri-aarch64-neon", "C09", "miri-aarch64", procs=8, of=640, transcript="auto"),
+           miri("cfgB-miri-s390x-be", "C09", "miri-s390x", procs=6, of=640, transcript="auto")]
     ),
     "thorough": (
         [native("cfg-" + n, "C09", config=c, bitmap=(i == 0), timeout=7200, transcript="auto", **a) for i, (n, c, a) in enumerate(C09_NATIVE)]
